@@ -23,9 +23,8 @@ T = {
  'C01': ("28 kernel-checked theorems: for every in-domain request of every kind the code-shaped encoder's output parses, with an "
          "independently written MQTT 5 parser, to exactly one packet holding exactly the caller's values (enc_*_parses), remaining/"
          "property length fields exact (*_lengths), packetLen = encoded length (*_packetLen), refusal exactly for the missing-mandatory-"
-         "part cases (*_valid_iff).",
-         "Wire = concatenation of whole packets under partial/pending writes is established by the correspondence run (writer policies "
-         "one/pend/pendone) and the oracle, not by a theorem. Spec/Client.lean is my reading of MQTT 5."),
+         "part cases (*_valid_iff). Whole executions (Properties/C01World): every packet the client builds is exactly one frame; everything handed to the transport is the concatenation of the submitted packets (wire_is_submitted), the W lines of every transcript are those packets (transcript_wires), no partial packet is ever left (no_wraw), every W line parses with the independent parser to the packet of a request of the script with the identifiers the library assigned (wire_lines_from_callers); refusal changes nothing (startOp_refused, connect_refused).",
+         "Partial / pending writes of the AsyncWrite half are harness policies (one/pend/pendone): the model hands whole packets to the transport, so the fragmentation clause rests on the correspondence run and the oracle. Spec/Client.lean is my reading of MQTT 5. Script-level theorems need requests inside MQTT 5's domain (ScriptInDomain, executable)."),
  'C02': ("dec_of_spec (+ one theorem per packet type): for every well-formed server packet p (independent spec encoder, decidable WF) "
          "decodeRx (encodeServer p) = ok (expected p): all 11 types, all short forms, any property order, repeated user properties, "
          "standard defaults for absent properties.",
@@ -38,34 +37,32 @@ T = {
          "(a process abort is detected by the orchestrator)."),
  'C04': ("decodeRx_never_panics, decVar_no_overflow (u32 arithmetic cannot overflow: debug and release agree), framing_index_safe, and "
          "the actor part: unknown identifiers ignored, CONNACK/AUTH while running ignored, unexpected first packet is an error, panics "
-         "enumerated (only the documented assertion is reachable), transport faults return SocketClosed, no sleep on unread input.",
+         "enumerated (only the documented assertion is reachable), transport faults return SocketClosed, no sleep on unread input. Whole executions (Properties/C04World, C05World): for every script with pairwise distinct OP identifiers the only PANIC line a transcript can contain is the documented assertion, and only after a CONNACK without subscription-identifier support (only_documented_panic, assert_subid_only_from_connack); the executor's drain provably reaches quiescence after every step (drain_fuel_always_suffices) and a script that never holds the context task never logs STALL (never_stalls).",
          "Search: exhaustive short byte strings over a boundary alphabet, mutations of every packet type at every phase, read/write faults "
          "at every offset, debug and release, catch_unwind + stall detection."),
  'C05': ("actionId_injective, removeFirst_spec, only_own_ack_completes (a oneshot is completed only by the packet whose type and identifier "
          "it was registered under, first registered first), msg_replies_only_to_its_own_slot, registered_on_send / pings_fifo, "
          "awaiting_keys_nodup_preserved, pending_stays_pending, resumeOp_content (the result carries exactly the acknowledgement's content), "
-         "pollOp_absent (never twice).",
-         "Stated per handler call / per poll and as invariants preserved by every step; the composition over whole executions of World.step "
-         "is exercised by the correspondence run (exhaustive acknowledgement permutations + random walks), not proved end to end."),
+         "pollOp_absent (never twice). Whole executions (Properties/C05World): for every script each operation completes at most once (each_operation_completes_at_most_once), DONE is logged only by the operation's own poll, and with pairwise distinct OP identifiers a value found in a waiting operation's oneshot is an acknowledgement of its own kind registered under its own action identifier (filled_oneshot_matches_its_operation, oneshot_filled_only_by_own_acknowledgement), so the unreachable!() of the handle futures is dead code (no_unreachable_panic).",
+         "Script-level theorems that depend on channel identity assume pairwise distinct OP identifiers in the script (the script language names oneshots after them; checked on every script by pmdriver hyps). 'Exactly once' is proved as 'at most once' + (C14/C16/C04 packages) 'the executor never leaves a ready operation unpolled'."),
  'C06': ("startOp_publish_qos0/qos12 (exactly one message with the encoded packet, identifier iff QoS>0), publish_written_once_dup0 + "
          "encode_dup_clear (DUP=0 on the wire, DUP set only on the stored copy), qos0_completes_when_written, puback/pubrec/pubcomp_outcome "
-         "(the 0x80 threshold, PUBREL built from the PUBREC's identifier, none after a failing PUBREC), pubrel_only_from_pubrec.",
-         "Per-step statements; delayed polling is covered by pending_stays_pending (C05). End-to-end composition exercised by the "
-         "correspondence run over every legal reason code."),
+         "(the 0x80 threshold, PUBREL built from the PUBREC's identifier, none after a failing PUBREC), pubrel_only_from_pubrec. Whole executions (Properties/C06World): in every moment of every execution every PUBREL held in the queue or the retransmit queue stems from a PUBREC with reason < 0x80 for that identifier (pubrel_held_only_after_successful_pubrec), a failing PUBREC queues nothing, every DONE of a publish has one of the documented causes with the acknowledgement's reason/string/properties (publish_result_mapping), exactly one first transmission with DUP=0 is queued per accepted publish.",
+         "Script-level theorems for publish requests with QoS <= 2 (the model's Req does not bound it). A transcript-level count of W lines per publish is not proved (per-message chain instead)."),
  'C07': ("dispatch_spec (delivered to exactly the live subscriptions whose identifier the PUBLISH carries, in order, unchanged), "
          "registered_when_subscribe_is_sent, subs_changed_only_by_subscribe_and_dead_receivers, channel_fifo, "
-         "stream_ends_only_without_sender.",
-         "Per-step statements over Ctx.dispatch / handleMsg / pollStream; whole-execution composition exercised by the correspondence run."),
+         "stream_ends_only_without_sender. Whole executions (Properties/C07World): every script is a trace of labelled moves; per stream the conservation law items yielded ++ buffer = messages delivered (stream_yields_exactly_what_was_delivered), who_gets_delivered_what (one copy per subscription identifier with a registered live receiver, QoS 2 re-deliveries excluded), delivery before SUBACK / before stream(), stream_ends_only_after_end_cause (context dropped, expired-session reset, own SUBSCRIBE refused), independence from other streams and operations.",
+         "Script-level theorems assume pairwise distinct OP identifiers (channels are named after them) and fewer than 2^28-1 subscribes."),
  'C08': ("acks_exact / acks_in_arrival_order: for every history of inputs served by run(), the acknowledgements written are exactly the "
          "acknowledgements owed, packet by packet, in order — whatever the subscriptions, dead streams or identifiers; decodeRx_wf makes the "
-         "unreachable!() of the PUBLISH arm unreachable.",
-         "Stated over Ctx.serve (the handler sequence run() executes)."),
+         "unreachable!() of the PUBLISH arm unreachable. Whole executions (Properties/CtxLift): every poll of run() in every world drives the context through exactly a served history of decoder-well-formed inputs (world_poll_is_serve) and, with an unlimited transport, the bytes it hands to the transport are exactly the acknowledgements owed / the requests' own packets in order (world_poll_acks_exact, world_run_poll_is_serve).",
+         "Per-history theorems over Ctx.serve, lifted to every poll of run() in every world; the composition over all polls of one connection is work package W9."),
  'C09': ("inQos2_is_pending, redelivery_suppressed, first_delivery, pubrel_releases, qos2_delivered_once: along every history a QoS 2 PUBLISH "
-         "is dispatched iff its identifier is not pending since the last PUBREL, and is always answered with PUBREC.",
-         "Stated over Ctx.serve."),
+         "is dispatched iff its identifier is not pending since the last PUBREL, and is always answered with PUBREC. Whole executions (Properties/CtxLift): inbound_qos2 has no duplicates and only identifiers in 1..65535 in every reachable world (world_inQos2, world_inQos2_range); after every poll it is the q2Step fold of the poll's history (world_poll_inQos2).",
+         "Per-history theorems over Ctx.serve, lifted to every poll of run() in every world."),
  'C10': ("quota_invariant: for EVERY Receive Maximum R and every input history the executable monitor P_C10 (outstanding ≤ R, QuotaExceeded "
          "exactly at R outstanding, every completion frees one slot) accepts the history, by a simulation relation quota + outstanding = R; "
-         "quota_bounded, qos0_and_others_never_limited, quota_after_connack.",
+         "quota_bounded, qos0_and_others_never_limited, quota_after_connack. Whole executions (Properties/CtxLift): quota <= Receive Maximum in every reachable world of every script (world_quota_bounded); the monitor accepts the history of every poll of run() from every related state (world_poll_quota, world_poll_quota_fresh).",
          "Histories with non-conformant acknowledgements leave the monitor's domain (stated in the monitor). Resumed sessions re-arm the quota "
          "to R while re-sent packets are in flight: outside C10's single-connection histories, noted in DESIGN.md."),
  'C11': ("alloc_closed_form, alloc_nonzero, alloc_unique_window, alloc_period (any two of fewer than 65535 consecutive allocations differ, "
@@ -73,24 +70,22 @@ T = {
          "The multi-thread case rests on the atomicity of AtomicU16::fetch_update (one alloc step per operation); exercised single-threaded "
          "with > 65536 operations from three clones."),
  'C12': ("sizeOk_iff, too_big_refused (state unchanged, not one byte written, only the error reply), fits_written_whole, maxPkt_from_connack; "
-         "with *_packetLen of C01 the length compared is the true encoded length.",
+         "with *_packetLen of C01 the length compared is the true encoded length. Whole executions (Properties/CtxLift): serving never changes the limit (world_poll_maxPkt); the context state moves only by the documented transitions (world_ctx_transitions).",
          "Exactness at L = M is also swept by the correspondence run (M = 1..47 around every kind's L)."),
  'C13': ("handlePkt_flow / handleMsg_flow / flowRet_mapping, runLoop_returns_only_for_a_cause, handleClosed_only_when_no_sender, "
-         "nothing_after_return, first_response_mapping, connect_refused_before_writing.",
+         "nothing_after_return, first_response_mapping, connect_refused_before_writing. Whole executions (Properties/C13World): RET lines are logged only by a poll of the context task and at most once per call (each_call_returns_at_most_once); every RET run r of every transcript has its documented cause per result (run_returns_only_for_a_cause, run_result_causes) and a poll that leaves run() pending saw none (run_pending_only_without_cause); nothing is written after a return until the next call (nothing_written_after_return, nothing_written_after_user_disconnect); the same for connect()/authorize().",
          "select! order between a ready packet and a ready message is outside the model (scripts keep one kind pending)."),
- 'C14': ("dropCtx_closes, dropCtx_wakes, closed_slot_completes, start_after_drop, stream_drains_then_ends, full_slot_still_delivers.",
-         "Rests on the channel parameters (a dropped sender wakes the receiver). The global invariant 'every waiting op's sender is owned by the "
-         "queue or the session' is exercised by the correspondence run (DROPCTX after every prefix), not proved."),
+ 'C14': ("dropCtx_closes, dropCtx_wakes, closed_slot_completes, start_after_drop, stream_drains_then_ends, full_slot_still_delivers. Whole executions (Properties/C14World): the sender-ownership invariant holds in every reachable world (ownInv_script); once the context is dropped every oneshot of a waiting operation is closed or full, every channel's sender is gone, the executor provably reaches quiescence (executor_quiescent_after_drop) and nothing is left pending except tasks the script itself holds (nothing_pending_after_drop); an operation started afterwards fails at once.",
+         "Rests on the channel parameters (a dropped sender wakes the receiver). The stream half needs pairwise distinct OP identifiers (channels are named after them)."),
  'C15': ("dropOp_frame, late_ack_absorbed, bookkeeping_independent_of_waiter, dead_stream_only_unregisters, drop_stream_frame, runHandler_c.",
          "One known finding K1 (known_findings.json): a QoS 2 publish future dropped before its PUBREL was sent leaves its exchange and slot "
          "unfinished — reported as KNOWN-FINDING, any other violation is reported."),
  'C16': ("pollOp_spurious, pollStream_spurious, pollCtx_spurious_running/connecting (a poll without a wakeup changes only registration flags), "
-         "pending_implies_registered, wake_on_every_event, framing_pending_only_from_reader (framing_no_lost_wakeup).",
-         "Equality of whole executions under wake-only / sweep / spurious-poll executors x read chunkings x write policies is checked on the "
-         "implementation by the oracle (groups of scripts), and implementation = model on each."),
+         "pending_implies_registered, wake_on_every_event, framing_pending_only_from_reader (framing_no_lost_wakeup). Whole executions (Properties/C16World, C16Fuel): in a quiescent world a spurious poll and a sweep change NOTHING (w.apply (.poll t) = w, w.sweep = w); for every script with pairwise distinct OP identifiers World.run with the sweeping executor equals World.run with the wake-only executor (sweep_irrelevant) and an inserted spurious poll only adds its own event line (spurious_poll_inserted).",
+         "The theorems are about the executor of PROTOCOL.md; read chunkings and write policies are compared on the implementation by the oracle (groups of scripts), and implementation = model on each."),
  'C17': ("sessionExpired_iff, resume_first_connection, resume_not_expired (re-sends exactly the queue, in order, keeps the waiters), resume_expired "
          "(re-sends nothing, drops every waiter), retx_is_unfinished / resume_resends_unfinished (the queue is the fold over the history: "
-         "DUP-marked PUBLISH without PUBACK/PUBREC, PUBREL without PUBCOMP), acked_not_resent, retx_order_preserved, retx_dup_marked, setDup_spec.",
+         "DUP-marked PUBLISH without PUBACK/PUBREC, PUBREL without PUBCOMP), acked_not_resent, retx_order_preserved, retx_dup_marked, setDup_spec. Whole executions (Properties/CtxLift): the first poll of run() after a recorded disconnection re-sends exactly the retransmit queue before anything else (world_run_poll_is_serve) and the queue after every poll is the unfinished handshakes of its history (world_poll_retx).",
          "The clock is a parameter (seconds since disconnection) and hook H1 records the disconnection (production code never does)."),
 }
 
